@@ -163,7 +163,11 @@ class UDSServer(ABC):
     def default_response_if_session_change(self, request: service.UDSRequest) -> None | (
         service.NegativeResponse | service.DiagnosticSessionControlResponse
     ):
-        if isinstance(request, service.DiagnosticSessionControlRequest):
+        # Only sessions which are part of the model can be entered
+        if (
+            isinstance(request, service.DiagnosticSessionControlRequest)
+            and request.diagnostic_session_type in self.supported_services
+        ):
             return service.DiagnosticSessionControlResponse(request.diagnostic_session_type)
 
         return None
